@@ -89,7 +89,7 @@ Lemma sim4_query : forall st tg pend T W w s q w1 r o,
   user_answer q r w1 = ua /\
   Sim4 T W w2 (klog (LAnswer q a) s) /\ Ctx4 st tg pend w2 /\ w_fs w2 = w_fs w /\ w_old w2 = w_old w.
 Proof.
-  intros st tg pend T W w s q w1 r o [[HP HL] [HI HK]] HC Hp Hread H a ua w2.
+  intros st tg pend T W w s q w1 r o [[HP HL] [HI [HK HWb]]] HC Hp Hread H a ua w2.
   pose proof (s4_rinv _ _ _ _ HP) as HR2. pose proof (RInv2_R' _ _ HR2) as HR. pose proof (RInv_X _ _ HR) as HX.
   destruct (sim3_query T W w s q w1 r o (s4_sim _ _ _ _ HP) HR Hp) as (Ho & Hua & HS2 & HR2' & Hfs & Hnew); [| |exact H|].
   { intros p td _ _. pose proof (RInv2_maxlen _ _ HR2). lia. }
@@ -104,7 +104,7 @@ Proof.
   assert (Hbd: bd_created (w_bd w2) = bd_created (w_bd w)) by (unfold w2; rewrite w_bd_log_answer; apply (sv_created _ _ Sa)).
   assert (Hcf: w_cachefile w2 = w_cachefile w) by (unfold w2; rewrite w_cf_log_answer; apply (sv_cf _ _ Sa)).
   split; [exact Ho|]. split; [exact Hua|]. split; [|split; [|split; [exact Hfs|exact Hold]]].
-  - split; [split|split].
+  - split; [split|split; [|split]].
     + destruct HP as [P1 P2 P5 P6 P7 P8 P9 P10 P11 P12 P13 P14].
       constructor; cbn [klog ks_with k_need k_made k_fs k_newS]; try assumption.
       * apply log_answer_RInv2. eapply m_query_RInv2; eassumption.
@@ -116,6 +116,7 @@ Proof.
     + intros x Hx0. rewrite Hnew. apply HL. exact Hx0.
     + apply HInv_log_answer. apply (hx_HInv true w w1 Hx HI).
     + rewrite Hold. exact HK.
+    + rewrite Hnew. exact HWb.
   - destruct HC as [C1 C2 C3 C4 C5]. constructor.
     + intro y. unfold inprog. rewrite Hnew. apply C1.
     + exact C2.
@@ -150,7 +151,7 @@ Lemma sim4_write : forall st pend T W w s p c fs',
   let w' := set_clock (N.succ (w_clock w)) (N.succ (w_nextid w)) (set_fs fs' w) in
   Sim4 T W w' (ktick s) /\ Ctx4 st (Some p) (Some c) w' /\ frame4 st (Some p) w w'.
 Proof.
-  intros st pend T W w s p c fs' [[HP HL] [HI HK]] HC Ew w'.
+  intros st pend T W w s p c fs' [[HP HL] [HI [HK HWb]]] HC Ew w'.
   destruct (c4_tg _ _ _ _ HC p eq_refl) as [Hin Htg].
   pose proof (proj2 (c4_prog _ _ _ _ HC p) Hin) as Hprog.
   pose proof (s4_rinv _ _ _ _ HP) as HR2. pose proof (RInv2_R' _ _ HR2) as HR. destruct HR as (HX & HPI & HF).
@@ -160,13 +161,14 @@ Proof.
   destruct (write_file_frame _ _ _ _ _ _ _ Ew) as [[f [Hf _]] Hoth].
   destruct (c4_tsa _ _ _ _ HC p eq_refl) as [Tp Tn].
   split; [|split].
-  - split; [split|split].
+  - split; [split|split; [|split]].
     + destruct HP as [P1 P2 P5 P6 P7 P8 P9 P10 P11 P12 P13 P14].
       constructor; try assumption.
       apply (write_RInv2 _ T w p c fs' HR2 HinT (tgtP_len _ Htg) Ew).
     + exact HL.
     + apply (write_keeps_HInv w p c fs' Ew HI). intros h E. rewrite (pending_has_file _ _ Tp) in E. exfalso. exact (Tn h E).
     + exact HK.
+    + exact HWb.
   - destruct HC as [C1 C2 C3 C4 C5]. constructor.
     + exact C1.
     + exact C2.
